@@ -393,6 +393,20 @@ def stuck_run_cases(S, rng, ns, rounds):
                     {"op": "set_rounds", "g": 1, "r": rounds}, {"op": "next_u64", "g": 1}, {"op": "next_u32", "g": 1}], weight=20 + n_stuck // 3 + rounds)
 
 
+def timer_fault_cases(S, rng):
+    """the timer closure FAILS (panics) in the middle of a collection and the caller recovers (catch_unwind): the unwound
+    output call had started a fresh collection, so no half is owed afterwards (Trace_Jitter: TrFault)"""
+    for rounds in (1, 3):
+        for after in (0, 1, 2, 5, 9):
+            for first, call in ((["next_u32"], {"op": "next_u64"}), (["next_u32"], {"op": "fill_bytes", "n": 8}), (["next_u32"], {"op": "fill_bytes", "n": 13}),
+                                ([], {"op": "next_u32"}), (["next_u64"], {"op": "next_u32"}), (["next_u32", "next_u32"], {"op": "next_u64"})):
+                sc = jitter_script(rng, [("random", 400 + 60 * rounds)])
+                ops = [{"op": "timer", "t": 1, "readings": [u64(x) for x in sc], "cont": CONT}, {"op": "jit_new", "g": 1, "t": 1},
+                       {"op": "set_rounds", "g": 1, "r": rounds}] + [{"op": o, "g": 1} for o in first]
+                ops += [{"op": "arm_fault", "g": 1, "after": after}, dict(call, g=1), {"op": "next_u32", "g": 1}, {"op": "next_u32", "g": 1}, {"op": "next_u64", "g": 1}]
+                S.case("timer fails at read %d of %s after %s, rounds %d" % (after, call["op"] + str(call.get("n", "")), "+".join(first) or "nothing", rounds), ops, weight=40)
+
+
 def zero_reading_cases(S, rng):
     """a timer reading of exactly 0 at the priming position of a collection, as a time stamp, as a loop-count draw: the
     collection procedure has no special case for it (only test_timer has)"""
@@ -560,6 +574,9 @@ def c14_jitter_corpus(seed, tier):
         S.case("hostile jitter stall of %d readings" % stall,
                [{"op": "timer", "t": 1, "readings": [u64(x) for x in rd], "cont": CONT},
                 {"op": "jit_new", "g": 1, "t": 1}, {"op": "set_rounds", "g": 1, "r": rounds}, {"op": "next_u64", "g": 1}, {"op": "next_u32", "g": 1}], weight=stall // 3)
+    # more consecutive stuck measurements inside ONE output call than a 16-bit counter holds (a retry / statistics
+    # counter added to the collection loop must not be narrower than the loop is long)
+    stuck_run_cases(S, rng, (65600,) if tier == "quick" else (255, 256, 65535, 65536, 65600, 131200), 3)
     if tier != "quick":
         # millisecond clock: the value changes every 1500 readings
         rd = [1_000_000 * (1 + k // 1500) for k in range(40000)]
